@@ -310,7 +310,21 @@ class Space(object):
                 last = n == len(hist) - 2
                 newref, verdict = apply_ref(ref, ev)
                 if verdict == "unspecified":
-                    call(apply_impl, path, ev)
+                    # what the append does to the variable being (re)written is not pinned down here, but two stated clauses still apply:
+                    # the in-memory object is not changed, and every OTHER variable already in the file is kept as it was
+                    res = call(apply_impl, path, ev)
+                    if not isinstance(res, Raised) and common.snap(res[0]) != res[1]:
+                        return bad("step {} {}: writing modified the in-memory object".format(n, ev))
+                    if ref is not None and ev[0] != "ds_write":
+                        for other, rv in ref.vars.items():
+                            if other == ev[2]:
+                                continue
+                            one = call(da.read_nc, path, other)
+                            if isinstance(one, Raised):
+                                return bad("after {} (labels / type differ from the file's): read_nc(f, {!r}) of a variable that was already there raised {}".format(hist[1:], other, one))
+                            m = compare_var(one, rv, ref, "after {} (labels / type differ from the file's): variable {!r} that was already there".format(hist[1:], other))
+                            if m:
+                                return bad(m)
                     return ok("unspecified", False, terminal=True, canon=None, unspecified=True)
                 res = call(apply_impl, path, ev)
                 if verdict == "error":
